@@ -131,7 +131,13 @@ def _run_task(modname, fname, kwargs):
 	multiprocessing.set_start_method('fork', force=True)
 	mod = importlib.import_module(modname)
 	try:
-		sh = getattr(mod, fname)(**kwargs)
+		try:
+			sh = getattr(mod, fname)(**kwargs)
+		finally:
+			# a library that keeps thread / process pools in module-level state would otherwise take them into the next task of this worker
+			# and into interpreter exit
+			from mc import fixtures
+			fixtures.end_leaked_executors()
 	except HarnessError:
 		raise
 	except Exception as e:
